@@ -799,6 +799,13 @@ class NoTraceOracle(Observer):
     def after(self, w, ev, out):
         if self.snap is None or out.status not in ("fail", "unexp"):
             return
+        # gradients that a failed statement may legitimately touch (DESIGN C13 don't-care): the
+        # target of a failed in-place update, and half-forgotten views whose link it may drop
+        w.twin_skip_grad |= set(self.lingering)
+        if ev["k"] in ("inplace", "setshape") and ev.get("tgt") in w.info:
+            # the target's own gradient and its base's are nulled up-front by the implementation
+            w.twin_skip_grad.add(ev["tgt"])
+            w.twin_skip_grad |= {hh for hh, ids in w.info[ev["tgt"]].fam.members.items() if ids is None}
         if ev["k"] == "backward" and out.exc == "InvalidBackprop":
             return  # gradients written before the error are C09's / C14's subject, not a "failed operation"
         ts0, arrs0, hs0, share0 = self.snap
